@@ -81,7 +81,7 @@ def _case(draw):
     if cls in ("boxed", "wild") and draw(st.integers(0, 9)) == 0:
         # a bound written with a coefficient below 1e-6 (2^-21, 5e-7): it still bounds the variable, at 1e6 times the constant
         v = draw(st.sampled_from(outs))
-        tiny = draw(st.sampled_from([2.0 ** -21, 5e-7, 8e-7]))     # HiGHS itself ignores coefficients below about 1e-7
+        tiny = draw(st.sampled_from([2.0 ** -21, 5e-7, 8e-7]))     # below about 1e-6 HiGHS may miss an unbounded direction (known finding)
         sg = draw(st.sampled_from([1.0, -1.0]))
         u = draw(st.sampled_from(ins))
         c["g"].append([{v: sg * tiny, u: -1.0}, float(draw(st.integers(0, 3)))])
@@ -126,7 +126,7 @@ def run_case(case):
     r = _run_case(case)
     if r.get("viol"):
         mags = [abs(v) for t in case["c"]["a"] + case["c"]["g"] for v in t[0].values() if v != 0]
-        r["viol"]["sig"]["below_solver_threshold"] = bool(mags) and min(mags) < 1e-7
+        r["viol"]["sig"]["below_solver_threshold"] = bool(mags) and min(mags) < 1e-6
     return r
 
 
